@@ -4,6 +4,7 @@
 import NngModel.Driver.Common
 import NngModel.Model.Aio
 import NngModel.Spec.Aio
+import NngModel.Generated.C02
 namespace Nng.Driver.Aio
 open Nng Nng.Driver Nng.AioSpec Nng.Aio
 
